@@ -149,7 +149,9 @@ def cases(tier, rng):
                 else:
                     m[j] = rng.choice(["]", "[", "{", "}", "<", ">", "|", ":", "let", "map", "loop", "7", "x9"])
                 yield f"{op}{j}:{text}", {"kind": "nearmiss", "base": text, "toks": m, "at": j}, True
-        yield f"header-after-body:{text}", {"kind": "layout-reject", "text": text + "let zz 1\n"}, True
+        extra = rng.choice(["let zz 1\n", "map zz q\n", "map zz q[0]\n", "register zr[2]\n", "  let zz 1\n"])
+        yield f"header-after-body:{extra}{text}", {"kind": "layout-reject", "text": text + extra, "stmt_line": text.count("\n") + 1,
+                                                  "stmt_col": len(extra) - len(extra.lstrip()) + 1}, True
 
 
 def join(toks):
@@ -187,7 +189,16 @@ def check(pl):
     if pl["kind"] == "layout-reject":
         try:
             sexp(pl["text"])
-        except JaqalParseError:
+        except JaqalParseError as ex:
+            # the position must be at or after the first token of the misplaced statement, and inside the text
+            if ex.line == "EOF" or not isinstance(ex.line, int):
+                return f"misplaced header statement reported without a position ({ex.line!r})"
+            nlines = pl["text"].count("\n") + 1
+            if (ex.line, ex.column) < (pl["stmt_line"], pl["stmt_col"]):
+                return (f"misplaced header statement at {pl['stmt_line']}:{pl['stmt_col']} reported at {ex.line}:{ex.column}, "
+                        "before the offending statement")
+            if ex.line > nlines:
+                return f"error line {ex.line} outside the text ({nlines} lines)"
             return None
         except JaqalError as ex:
             return None
